@@ -357,6 +357,12 @@ impl FrameQueue {
             }
         }
 
+        if total_ack_size == 0 {
+            // Nothing was newly acknowledged (a duplicate or replayed ack group), so there is no
+            // new feedback
+            return;
+        }
+
         // Add to pending feedback data
         self.feedback_gen.put_ack_data(AckData { last_send_time_ms, total_ack_size, rate_limited });
     }
